@@ -106,7 +106,7 @@ func c12ReuseRun(i int, raw []byte) Result {
 			continue
 		}
 		render := func(k int) *c12Rendered {
-			return c12Render(&rc.Docs[k], ob.cfg.maxChars, ob.cfg.minChars, "direct")
+			return c12Render(&rc.Docs[k], ob.cfg.maxChars, ob.cfg.minChars, "direct", ob.cfg.api)
 		}
 		bad := func(clause, what string, obs interface{}) Result {
 			x := fail(clause, "C12:"+clause+":"+ob.cfg.api+":"+kind, fmt.Sprintf("%s, history %v (%s): %s", ob.cfg.name, rc.Hist, kind, what),
